@@ -24,9 +24,23 @@ type poolCall struct {
 	opts   Opts
 	indent string
 	v5only bool
+	corrupt int // > 0: the Patch is a hand-assembled copy with one raw message damaged (never under C04)
 }
 
 func ens(o Opts) Opts { o.Ensure = true; return o }
+
+func histPoolFor(prop string) []poolCall {
+	pool := histPool()
+	if prop == "C04" {
+		return pool // hand-assembled Patch values are outside C04's stated domain
+	}
+	val := `[{"op":"add","path":"/b","value":{"x":[1,2,3]}}]`
+	return append(pool,
+		poolCall{fn: FnApply, a: `{"name":"x"}`, patch: val, corrupt: 4},  // value with an invalid byte in the middle
+		poolCall{fn: FnApply, a: `{"name":"x"}`, patch: val, corrupt: 10}, // value followed by garbage... (k%6 == 4 again: second shape)
+		poolCall{fn: FnApply, a: `{"name":"x"}`, patch: val, corrupt: 2},  // empty value
+	)
+}
 
 func histPool() []poolCall {
 	d0 := `{"name":"x"}`
@@ -121,12 +135,13 @@ func tupleScenario(seed uint64, prop, target string, pool []poolCall, idx []int,
 			}
 		}
 		if usesSlot(c.Fn) {
-			s, ok := slotOf[pc.patch]
+			skey := fmt.Sprintf("%d|%s", pc.corrupt, pc.patch)
+			s, ok := slotOf[skey]
 			if !ok {
 				s = len(slotOf)
-				slotOf[pc.patch] = s
+				slotOf[skey] = s
 				id++
-				sc.Prelude = append(sc.Prelude, Call{ID: id, Fn: FnDecodePatch, Name: "DecodePatch", A: buf(pc.patch), Slot: s})
+				sc.Prelude = append(sc.Prelude, Call{ID: id, Fn: FnDecodePatch, Name: "DecodePatch", A: buf(pc.patch), Slot: s, Corrupt: pc.corrupt})
 			}
 			c.Slot = s
 		}
@@ -150,7 +165,7 @@ func tupleScenario(seed uint64, prop, target string, pool []poolCall, idx []int,
 
 // runHistTriples executes this worker's share of the triple enumeration through exec.
 func runHistTriples(p Params, prop string, mine func() bool, exec func(sc *Scenario, kind string), itemNo func() int) int {
-	pool := histPool()
+	pool := histPoolFor(prop)
 	seed := RunSeed(p.VerifSeed, prop+"-hist3", 0)
 	n := 0
 	for _, target := range []string{"v5", "legacy"} {
@@ -224,7 +239,7 @@ func RunHistEnumWorker(p Params) *Summary {
 	}
 	runHistTriples(p, p.Prop, mine, exec, func() int { return item })
 	if complete {
-		n := len(histPool())
+		n := len(histPoolFor(p.Prop))
 		ws.sum.Exhaustive = []string{fmt.Sprintf("every ordered triple of %d call descriptors (%d three-call histories per package) x {v5, legacy}, pool policy LIFO/adversarial/FIFO, all map orders", n, n*n*n)}
 		if p.Tier == "thorough" {
 			h := (n + 1) / 2
